@@ -1,7 +1,7 @@
 // C17 (compositions of adapters with the block adapter).
 //  * block_matrix<2x2>(make_matrix(row builder)) handed to a block-valued solver: entries / interleaved iterators / SpMV as in c17_adapters.cpp,
 //    then setup and solve through the composed adapter, judged by the true residual of the SCALAR system;
-//  * adapter::reorder<> on top of adapter::block_matrix (examples/solver.cpp, block_solve with reordering): known finding F-block-iterator-copy.
+//  * adapter::reorder<> on top of adapter::block_matrix (examples/solver.cpp, block_solve with reordering): fixed finding F-block-iterator-copy (regression replay/C17/block-iterator-copy.case).
 #include <amgcl/backend/builtin.hpp>
 #include <amgcl/value_type/static_matrix.hpp>
 #include <amgcl/adapter/crs_tuple.hpp>
@@ -78,10 +78,9 @@ static void prop_reorder_block(Tape &t, Ctx &c) {
     c.desc << "reorder(block_matrix(tuple)) " << fam << " " << describe(A) << " A=" << dump_small(A, 8);
     c.nontrivial = A.n >= 4 && A.nnz() > A.n;
     c.label("cellfam:" + fam.substr(0, fam.find('/')));
-    // Known finding F-block-iterator-copy: block_matrix_adapter::row_iterator keeps a pointer into its own buffer and has the implicit
-    // copy constructor; reordered_matrix::row_begin() copies it, so the copy reads the dead temporary (ASan: stack-buffer-underflow /
-    // stack-use-after-return in block_matrix.hpp:128 via reorder.hpp:85).  The whole composition is excluded until that is repaired.
-    if (c.known("F-block-iterator-copy")) return;
+    // Former finding F-block-iterator-copy (fixed in /repo 5b1ca34): block_matrix_adapter::row_iterator kept a pointer into its own
+    // buffer and had the implicit copy constructor; reordered_matrix::row_begin() copies it, so the copy read the dead temporary
+    // (ASan: stack-buffer-underflow in block_matrix.hpp via reorder.hpp). The composition is checked without exclusion.
     size_t n = static_cast<size_t>(A.n), nb = n / 2;
     auto T = std::tie(n, A.ptr, A.col, A.val);
     auto Ab = ad::block_matrix<blk2>(T);
